@@ -8,6 +8,7 @@ use beff_core::subtyping::bdd::{Atom, Bdd, BddOps};
 use serde_json::{Value, json};
 
 mod bddj;
+mod semj;
 
 fn main() {
     let args: Vec<String> = std::env::args().collect();
@@ -16,6 +17,8 @@ fn main() {
     std::io::stdin().read_to_string(&mut input).expect("stdin");
     let out = match cmd {
         "bddop" => bddj::bddop(&serde_json::from_str(&input).expect("json")),
+        "properop" => semj::properop(&serde_json::from_str(&input).expect("json")),
+        "semop" => semj::semop(&serde_json::from_str(&input).expect("json")),
         _ => json!({"error": format!("unknown command {cmd}")}),
     };
     println!("{}", serde_json::to_string(&out).unwrap());
